@@ -74,6 +74,10 @@ template<int N, class T> static void run(Rng& g, int n) {
 		if (kind == 2) { int p[4] = {0, 1, 2, 3}; for (int i = N - 1; i > 0; --i) std::swap(p[i], p[g.range(0, i)]); for (int c = 0; c < N; ++c) for (int r = 0; r < N; ++r) M[c][r] = (T)((r == p[c] ? g.real(0.5, 2) * (g.range(0, 1) ? 1 : -1) : 0) + g.real(-0.05, 0.05)); }   // permutation-like
 		LM<N> L = toL(M), Li; if (!linv(L, Li)) continue; LD kappa = fro(L) * fro(Li); if (kappa > kmax) continue;
 		check<N, T>(M, kappa, false, kind == 1 ? "triangular" : kind == 2 ? "permutation-like" : "general");
+		// the same well-conditioned matrix at another scale: inverse and determinant are homogeneous, no absolute threshold on the determinant is legitimate
+		if (it % 3 == 0) { int kx = std::is_same<T, float>::value ? 4 : 30; LD sc = powl(10, (LD)g.range(-kx, kx)); glm::mat<N, N, T> Ms = M * (T)sc; LM<N> Ls = toL(Ms); std::string sfx = "_" + std::to_string(N) + "_" + tn<T>(); LD eps = std::numeric_limits<T>::epsilon();
+		  count("inv_scaled" + sfx); auto Is = glm::inverse(Ms); LD e1 = maxdiff_I(Is * Ms), e2 = maxdiff_I(Ms * Is); if (!(e1 <= 64 * eps * kappa) || !(e2 <= 64 * eps * kappa)) fail("inv_scaled" + sfx, "well-conditioned matrix times 10^k", ms(Ms), "|inverse(M)*M - I| <= " + str((double)(64 * eps * kappa)), str((double)nmax(e1, e2)));
+		  LD dref = ldet(Ls), dg = glm::determinant(Ms); if (!(fabsl(dg - dref) <= 64 * eps * powl(fro(Ls), N))) fail("det_scaled" + sfx, "well-conditioned matrix times 10^k", ms(Ms), str((double)dref), str((double)dg)); }
 		if constexpr (N >= 3) check_affine<N, T>(M, kmax, false, "affine");
 		if (it < 2) sample(std::string("inverse_") + std::to_string(N) + "_" + tn<T>() + " " + ms(M));
 	}
